@@ -41,6 +41,13 @@ func constInt64(p *Prog, pkg, name string) (int64, bool) {
 
 func runC08(c *Ctx) {
 	p := c.P
+	{
+		// what is not an OID is not a pointer: the OID language (C07.R1) decides what clean passes through
+		saved := c.RulePrefix
+		c.RulePrefix = saved + "C07/"
+		c07OidRule(c)
+		c.RulePrefix = saved
+	}
 	clean := p.Fn("commands", "clean")
 	ctt := p.Fn("lfs", "(*GitFilter).copyToTemp")
 	if clean == nil || ctt == nil {
@@ -551,6 +558,7 @@ func noReturnCommands(in ssa.Instruction) bool {
 }
 
 var c08Canaries = []Canary{
+	{Name: "r6-copy-helper-stops-early", ExpectKey: "C08.R1#copy-with-callback:reads-to-the-end", Edits: []Edit{{File: "tools/iotools.go", Find: "\t\treturn io.Copy(writer, reader)\n\t}\n\n\tcbReader := &CallbackReader{\n\t\tC:         cb,\n\t\tTotalSize: totalSize,\n", Repl: "\t\treturn io.Copy(writer, reader)\n\t}\n\n\tif totalSize > 0 {\n\t\t// Progress is reported against totalSize, so keep the amount\n\t\t// read (and reported) within it.\n\t\treader = io.LimitReader(reader, totalSize)\n\t}\n\n\tcbReader := &CallbackReader{\n\t\tC:         cb,\n\t\tTotalSize: totalSize,\n"}}},
 	{Name: "r5-canonical-only-passes", ExpectKey: "C08.R4#content-verdict", Edits: []Edit{{File: "lfs/gitfilter_clean.go", Find: "\tif rerr != nil || (err == nil && len(by) < blobSizeCutoff) {", Repl: "\tif rerr != nil || (err == nil && ptr.Canonical && len(by) < blobSizeCutoff) {"}}},
 	{Name: "r4-unbounded-extension-split", ExpectKey: "C08.R4#extension-key", Edits: []Edit{{File: "lfs/pointer.go", Find: "strings.SplitN(key, \"-\", 3)", Repl: "strings.Split(key, \"-\")"}}},
 	{Name: "reencode-pointer", ExpectKey: "C08.R1#clean:write-back", Edits: []Edit{{File: "commands/command_clean.go", Find: "		_, err = to.Write(errors.GetContext(err, \"bytes\").([]byte))", Repl: "		_, err = to.Write([]byte(errors.GetContext(err, \"pointer\").(*lfs.Pointer).Encoded()))"}}},
